@@ -126,8 +126,13 @@ def arith(it, opn, a, b, node):
     if opn == "add" and isinstance(a, Seq) and isinstance(b, Seq) and a.kind in ("list", "tuple") \
             and not (as_arr(a) is not None and a.kind == "array"):
         return Seq(a.items + b.items, a.kind)
-    if opn == "mul" and isinstance(a, Seq) and a.kind == "list" and is_pyconst(b) and isinstance(pyval(b), int):
+    if opn == "mul" and isinstance(a, Seq) and a.kind == "list" and is_pyconst(b) and isinstance(pyval(b), int) \
+            and not (len(a.items) == 1 and isinstance(a.items[0], Frame)):
         return Seq(a.items * pyval(b), "list")
+    if opn == "mul" and isinstance(a, Seq) and a.kind == "list" and len(a.items) == 1 and isinstance(a.items[0], Frame):
+        u = Unk(call("repeat_list", to_term(a), to_term(b)))
+        u.repeated = (a.items[0], b)
+        return u
     if opn == "mod" and is_pyconst(a) and isinstance(pyval(a), str):
         return Unk(call("strformat", to_term(a), to_term(b)))
     fa = a if isinstance(a, Frame) else None
@@ -544,6 +549,11 @@ def getitem(it, base, idx, node, fr):
         return r
     if isinstance(base, Ref):
         return Ref(base.name + "[]")
+    if isinstance(base, Rot):
+        r = Rot(base.term, space=index_space(it, base, idx, node))
+        r.indexed_by = idx
+        it.record("index", "rows", [base, idx], {}, node)
+        return r
     raise Unsupported(f"subscript of {type(base).__name__}", node)
 
 
@@ -809,6 +819,8 @@ def _bcast_cols(value, n, node):
             return list(a.cols)
         if len(a.cols) == 1:
             return [a.cols[0]] * n
+        if a.ndim == 1 and len({c.key() for c in a.cols}) == 1:
+            return [a.cols[0]] * n  # a vector of identical element-wise values (np.full((k,), v) combined with columns)
         raise Unsupported(f"storing {len(a.cols)} components into {n} columns", node)
     t = to_term(value)
     if isinstance(value, Unk) and n > 1:
@@ -818,6 +830,9 @@ def _bcast_cols(value, n, node):
 
 def store_cols(it, f, names, value, node, mask=None):
     terms_ = _bcast_cols(value, len(names), node)
+    vs = getattr(value, "space", None)
+    if vs is not None and f.space is not None and not vs.same(f.space) and not f.row:
+        it.record("space-mismatch", "store", [f, value], {}, node, {"frame_space": f.space, "value_space": vs, "names": list(names)})
     g = it.store_guard()
     if g is not None:
         mask = g if mask is None else mk("and", mask, g)
